@@ -40,6 +40,8 @@ def replay_helpers(ctx):
             continue
         if not f.local_ty(1).startswith("&mut"):
             continue
+        if not any(x in f.local_ty(2) for x in ("[(", "Vec<(", "VecDeque<(")):
+            continue        # the second parameter is not a log of pairs
         tb = TermBuilder(f, ctx.prog)
         sets = []
         other_writes = False
@@ -68,6 +70,64 @@ def replay_helpers(ctx):
         # the set call must be executed on every iteration: it post-dominates the loop body entry
         out[f.key] = {"field": fld, "ok": rev and full,
                       "why": "" if (rev and full) else ("log is not replayed in reverse order (stream %s)" % fmt(stream) if not rev else "replay loop can exit early or skip entries")}
+    return out
+
+
+def inline_replay_loops(ctx, m, pe):
+    """The same replay written out inside the mutator: a loop of m whose only self-write is `self.F.set(e.0, e.1)` with e running
+    over the undo log from its end (`for e in log.iter().rev()`, `while let Some(e) = log.pop()`), executed on every iteration of a
+    loop that runs to exhaustion.  Returns [{"body", "field", "root", "ok", "why", "head"}]."""
+    out = []
+    tb = pe.tb
+    vec_locals = [l for l in range(len(m.locals)) if m.local_ty(l).startswith("std::vec::Vec<(")]
+    for h in m.loop_heads():
+        body = m.natural_loop(h)
+        sets = []
+        other_self_calls = False
+        for bi, t in m.calls():
+            if bi not in body:
+                continue
+            if t.callee_name() == "set" and len(t.args) == 3:
+                sets.append((bi, [tb.operand(x, bi, len(m.blocks[bi].stmts)) for x in t.args]))
+        if len(sets) != 1:
+            continue
+        bi, a = sets[0]
+        fld = self_field_term(a[0])
+        if fld is None:
+            continue
+        pos, data = a[1], a[2]
+        if not (pos[0] == "tfield" and data[0] == "tfield" and pos[2] == 0 and data[2] == 1 and pos[1] == data[1]):
+            continue            # not a loop over (pos, data) pairs: some other loop that writes the field
+        e = pos[1]
+        why = ""
+        root = ("local", vec_locals[0]) if len(vec_locals) == 1 else None
+        if e[0] == "elem":
+            stream = e[1]
+            rev = stream[0] == "rev"
+            full = loop_exits_only_on_exhaustion(m, h)
+            if not rev:
+                why = "log is not replayed in reverse order (stream %s)" % fmt(stream)[:120]
+        elif e[0] == "field" and e[1][0] == "variant" and e[1][2] == "Some" and e[1][1][0] == "call" and e[1][1][1].endswith("::pop") and not e[1][1][1].endswith("pop_front"):
+            # entries taken from the end of the log until it is empty
+            pops = [(bj, t) for bj, t in m.calls() if bj in body and t.callee_name() == "pop"]
+            full = loop_exits_only_on_exhaustion(m, h, producers=("pop",))
+            if len(pops) == 1 and pops[0][1].args and pops[0][1].args[0].place is not None and pops[0][1].args[0].place.is_local():
+                o = pe.origins.of_local(pops[0][1].args[0].place.local)
+                if o is not None:
+                    root = o.root
+        else:
+            why = "log entries are taken with %s — not from the end of the log" % fmt(e)[:120]
+            full = False
+        if not why and not full:
+            why = "replay loop can exit early or skip entries"
+        # the store happens on every iteration: every back edge comes from a block the store dominates
+        if not why:
+            for b in body:
+                if h in m.succs(b) and not m.dominates(bi, b):
+                    why = "an iteration of the replay loop can skip the store"
+        if not why and root is None:
+            why = "cannot tell which undo log the loop replays"
+        out.append({"body": body, "head": h, "field": fld, "root": root, "ok": not why, "why": why, "set_bb": bi})
     return out
 
 
@@ -121,6 +181,20 @@ def check_mutator(ctx, m, exempt, helpers):
 
     # state: (dirty frozenset((field, where)), logged frozenset((field, logroot)), pending push or None)
     init = (frozenset(), frozenset(), None, frozenset(), frozenset())   # dirty, logged, pending, logs with entries (field, log), stale (field, log)
+    loops = inline_replay_loops(ctx, m, pe)
+    for lp_ in loops:
+        ctx.check(lp_["ok"], "R12-replay-helper", "%s:inline-replay@%s" % (m.key, lp_["field"]), m.blocks[lp_["set_bb"]].term.span,
+                  "replays (pos,data) of the log from its end with %s.set(pos,data) in a loop of %s that runs to exhaustion" % (lp_["field"], m.name),
+                  "undo-log replay loop is not a faithful reverse replay: %s" % lp_["why"])
+    loops = [lp_ for lp_ in loops if lp_["ok"]]
+
+    def in_replay_loop(ev):
+        if ev.get("via") or ev.get("origin_fn") != m.key:
+            return None
+        for lp_ in loops:
+            if ev.get("bb") in lp_["body"]:
+                return lp_
+        return None
 
     def site_of(ev):
         return "%s@%s:%d" % (ev.get("origin_fn", "?").split("::")[-1], ev["span"]["file"].split("/")[-1], ev["span"]["line"])
@@ -149,6 +223,18 @@ def check_mutator(ctx, m, exempt, helpers):
 
     def step(state, ev):
         d_, l_, p_, filled, stale = state
+        lp_ = in_replay_loop(ev)
+        if lp_ is not None:
+            # reaching the loop replays the whole log (the loop is verified to run to exhaustion and to store on every iteration);
+            # its own stores and its pops are not new work
+            nl = frozenset(x for x in l_ if not (x[0] == lp_["field"] and x[1] == lp_["root"]))
+            nd = d_
+            if (lp_["field"], lp_["root"]) in stale:
+                write_sites.setdefault(lp_["field"], set())
+                nd = nd | {(lp_["field"], "replay of a stale undo log over the restored snapshot @%s:%d" % (ev["span"]["file"].split("/")[-1], ev["span"]["line"]))}
+            if ev["kind"] == "write" and (self_field(ev) == lp_["field"] or ev.get("root") == lp_["root"]):
+                return (nd, nl, None, filled, stale)
+            d_, l_ = nd, nl
         nd, nl, np_ = step3((d_, l_, p_), ev)
         lp = log_push_of(ev)
         if lp is not None:
